@@ -3,7 +3,8 @@
 
    The model (Model/Update.v) is the code after the fix: commits ff5cb171 (non-target entries kept, matched
    target removed from the items still to add), d6f70cbe (a target matches the entry it would be stored as)
-   and 82c7cf0b (stale further copies of a re-created name dropped).  An archive's logical content is the
+   82c7cf0b (stale further copies of a re-created name dropped) and a048f63a (the walked paths are
+   de-duplicated by entry name: `update_targets kd walk` = the first walked path of every name).  An archive's logical content is the
    ordered list of its entries (solid blocks and part boundaries flattened); the disk is seen through the
    nodes the walker yields.  `wanted kd` is collect_items' filter (keep_dir || is_file), `fresh kt n` the entry
    create_entry builds for node n.  The re-created entries are written after the kept ones (the code sends
@@ -29,14 +30,14 @@ Print Assumptions C11_append_cmd_spec.
    the entries that stay ++ the re-created ones in archive order ++ the targets not yet archived *)
 Theorem C11_update_spec : forall kd kt excl cond a walk a',
   NoDup (names a) -> update_cmd kd kt excl cond a walk = Ok a' ->
-  let targets := filter (wanted kd) walk in
+  let targets := update_targets kd walk in
   a' = filter (stays excl cond targets) a
        ++ map (fresh kt) (flat_map (job excl cond targets) a)
        ++ map (fresh kt) (filter (not_in a) targets).
 Proof. exact update_spec. Qed.
 Check C11_update_spec : forall kd kt excl cond a walk a',
   NoDup (names a) -> update_cmd kd kt excl cond a walk = Ok a' ->
-  let targets := filter (wanted kd) walk in
+  let targets := update_targets kd walk in
   a' = filter (stays excl cond targets) a
        ++ map (fresh kt) (flat_map (job excl cond targets) a)
        ++ map (fresh kt) (filter (not_in a) targets).
@@ -54,37 +55,86 @@ Check C11_update_keeps_others : forall kd kt excl cond a walk a',
 Print Assumptions C11_update_keeps_others.
 
 (* every named path that exists on disk is present exactly once, with its current contents — for EVERY
-   archive (also one that already holds the path several times), when no filter / exclude holds it back;
-   the walked items name distinct entries (no overlapping file arguments) *)
+   archive (also one that already holds the path several times) and EVERY walk (also one that yields a path
+   several times: -r d d/a, ./d/a d/a — the premise "no overlapping file arguments" of before a048f63a is gone),
+   when no filter / exclude holds it back.  The entry is the one built from the first walked path of that name *)
 Theorem C11_update_exactly_once : forall kd kt a walk a' n,
   update_cmd kd kt [] 0 a walk = Ok a' ->
-  NoDup (map node_name (filter (wanted kd) walk)) ->
   In n (filter (wanted kd) walk) ->
-  filter (fun e => bytes_eqb (e_path e) (node_name n)) a' = [fresh kt n].
+  exists n', find (fun m => bytes_eqb (node_name m) (node_name n)) (filter (wanted kd) walk) = Some n' /\
+    node_name n' = node_name n /\
+    filter (fun e => bytes_eqb (e_path e) (node_name n)) a' = [fresh kt n'].
 Proof. exact update_exactly_once. Qed.
 Check C11_update_exactly_once : forall kd kt a walk a' n,
   update_cmd kd kt [] 0 a walk = Ok a' ->
-  NoDup (map node_name (filter (wanted kd) walk)) ->
   In n (filter (wanted kd) walk) ->
-  filter (fun e => bytes_eqb (e_path e) (node_name n)) a' = [fresh kt n].
+  exists n', find (fun m => bytes_eqb (node_name m) (node_name n)) (filter (wanted kd) walk) = Some n' /\
+    node_name n' = node_name n /\
+    filter (fun e => bytes_eqb (e_path e) (node_name n)) a' = [fresh kt n'].
 Print Assumptions C11_update_exactly_once.
 
-(* update keeps names unique *)
+(* the same in terms of the targets (the first walked path of every entry name), and as a count *)
+Theorem C11_update_exactly_once_targets : forall kd kt a walk a' n,
+  update_cmd kd kt [] 0 a walk = Ok a' ->
+  In n (update_targets kd walk) ->
+  filter (fun e => bytes_eqb (e_path e) (node_name n)) a' = [fresh kt n].
+Proof. exact update_exactly_once_targets. Qed.
+Check C11_update_exactly_once_targets : forall kd kt a walk a' n,
+  update_cmd kd kt [] 0 a walk = Ok a' ->
+  In n (update_targets kd walk) ->
+  filter (fun e => bytes_eqb (e_path e) (node_name n)) a' = [fresh kt n].
+Print Assumptions C11_update_exactly_once_targets.
+
+Theorem C11_update_exactly_one : forall kd kt a walk a' n,
+  update_cmd kd kt [] 0 a walk = Ok a' -> In n (filter (wanted kd) walk) ->
+  length (filter (fun e => bytes_eqb (e_path e) (node_name n)) a') = 1%nat.
+Proof. exact update_exactly_one. Qed.
+Check C11_update_exactly_one : forall kd kt a walk a' n,
+  update_cmd kd kt [] 0 a walk = Ok a' -> In n (filter (wanted kd) walk) ->
+  length (filter (fun e => bytes_eqb (e_path e) (node_name n)) a') = 1%nat.
+Print Assumptions C11_update_exactly_one.
+
+(* the targets: one per entry name, the names are those the walker yields, each is a walked path; nothing to do
+   when the walked paths name distinct entries *)
+Theorem C11_update_targets : forall kd walk,
+  NoDup (map node_name (update_targets kd walk)) /\
+  (forall q, In q (map node_name (update_targets kd walk)) <-> In q (map node_name (filter (wanted kd) walk))) /\
+  incl (update_targets kd walk) (filter (wanted kd) walk) /\
+  (NoDup (map node_name (filter (wanted kd) walk)) -> update_targets kd walk = filter (wanted kd) walk).
+Proof.
+  exact (fun kd walk => conj (update_targets_nodup kd walk)
+          (conj (fun q => dedup_names_names (filter (wanted kd) walk) q)
+          (conj (dedup_names_incl (filter (wanted kd) walk)) (dedup_names_id (filter (wanted kd) walk))))).
+Qed.
+Check C11_update_targets : forall kd walk,
+  NoDup (map node_name (update_targets kd walk)) /\
+  (forall q, In q (map node_name (update_targets kd walk)) <-> In q (map node_name (filter (wanted kd) walk))) /\
+  incl (update_targets kd walk) (filter (wanted kd) walk) /\
+  (NoDup (map node_name (filter (wanted kd) walk)) -> update_targets kd walk = filter (wanted kd) walk).
+Print Assumptions C11_update_targets.
+
+(* update keeps names unique, whatever the walker yields *)
 Theorem C11_update_nodup : forall kd kt excl cond a walk a',
-  NoDup (names a) -> NoDup (map node_name (filter (wanted kd) walk)) ->
+  NoDup (names a) ->
   update_cmd kd kt excl cond a walk = Ok a' -> NoDup (names a').
 Proof. exact update_nodup. Qed.
 Check C11_update_nodup : forall kd kt excl cond a walk a',
-  NoDup (names a) -> NoDup (map node_name (filter (wanted kd) walk)) ->
+  NoDup (names a) ->
   update_cmd kd kt excl cond a walk = Ok a' -> NoDup (names a').
 Print Assumptions C11_update_nodup.
 
 (* any interleaving of create, append (of names not yet archived), update, delete and re-splitting, failing
-   steps included (they leave the archive as it was): no name is ever held twice *)
+   steps included (they leave the archive as it was): no name is ever held twice.  `hist_ok` asks nothing of an
+   update step any more (C11_hist_ok_update); create and append still archive a path named twice twice *)
 Theorem C11_history_invariant : forall ops a, NoDup (names a) -> hist_ok a ops -> NoDup (names (final a ops)).
 Proof. exact history_invariant. Qed.
 Check C11_history_invariant : forall ops a, NoDup (names a) -> hist_ok a ops -> NoDup (names (final a ops)).
 Print Assumptions C11_history_invariant.
+
+Theorem C11_hist_ok_update : forall a kd kt excl cond walk, op_ok a (OUpdate kd kt excl cond walk) <-> True.
+Proof. exact (fun _ _ _ _ _ _ => conj (fun _ => I) (fun _ => I)). Qed.
+Check C11_hist_ok_update : forall a kd kt excl cond walk, op_ok a (OUpdate kd kt excl cond walk) <-> True.
+Print Assumptions C11_hist_ok_update.
 
 Theorem C11_delete_spec : forall matched a,
   delete matched a = filter (fun e => negb (mem (e_path e) matched)) a.
@@ -106,16 +156,32 @@ Check C11_update_unrepaired_refuted :
     /\ names (update_orig false [] 0 a targets) = [lit "d/a"; lit "d/a"].
 Print Assumptions C11_update_unrepaired_refuted.
 
+(* the overlap defect, on the command as it was before a048f63a (update_cmd_orig): archive [t/a], the walker
+   yields t/b twice (t/b ./t/b) -> t/b is archived twice *)
+Theorem C11_update_overlap_unrepaired_refuted :
+  exists a walk a', NoDup (names a) /\ update_cmd_orig false false [] 0 a walk = Ok a' /\
+    names a' = [lit "t/a"; lit "t/b"; lit "t/b"] /\ ~ NoDup (names a').
+Proof. exact update_overlap_unrepaired. Qed.
+Check C11_update_overlap_unrepaired_refuted :
+  exists a walk a', NoDup (names a) /\ update_cmd_orig false false [] 0 a walk = Ok a' /\
+    names a' = [lit "t/a"; lit "t/b"; lit "t/b"] /\ ~ NoDup (names a').
+Print Assumptions C11_update_overlap_unrepaired_refuted.
+
+Example C11_update_overlap_repaired :
+  update_cmd false false [] 0 ov_a ov_walk
+  = Ok [mkE (lit "t/a") 0 (lit "one") None; mkE (lit "t/b") 0 (lit "two") None].
+Proof. exact update_overlap_repaired_witness. Qed.
+
 (* premises are satisfiable: the same input through the repaired command *)
 Example C11_premises_met :
-  NoDup (names d13_a) /\ NoDup (map node_name (filter (wanted false) d13_targets))
+  NoDup (names d13_a) /\ In (hd (mkN [] 0 [] 0) d13_targets) (filter (wanted false) d13_targets)
   /\ update_cmd false false [] 0 d13_a d13_targets
      = Ok [mkE (lit "d/b") 0 (lit "two") None; mkE (lit "d/c") 0 (lit "three") None; mkE (lit "d/a") 0 (lit "ONE2") None]
   /\ hist_ok [] [OCreate false false d13_targets; OUpdate false false [] 0 d13_targets; ODelete [lit "d/a"]].
 Proof.
   split; [|split; [|split]].
   - repeat constructor; cbn; intuition discriminate.
-  - repeat constructor; cbn; intuition.
+  - vm_compute. left. reflexivity.
   - vm_compute. reflexivity.
   - cbn. repeat split; repeat constructor; cbn; intuition.
 Qed.
